@@ -166,6 +166,9 @@ def main(args):
     from contracts import attrs, layout2
     pool.run_targets(run, "contracts.layout2", list(layout2.TARGETS))
     run.function("compiler.front_end.constraints._check_type_requirements_for_field", "pyvc: explicit size vs fixed size vs field size (contracts/layout2.py)")
+    run.function("compiler.front_end.constraints._check_that_array_base_types_in_structs_are_multiples_of_bytes",
+                 "pyvc: one error iff the innermost element's known size (explicit, else fixed size of its type; symbolic) is not a multiple of the enclosing definition's addressable unit (contracts/layout2.py)")
+    run.function("compiler.util.ir_util.fixed_size_of_type_in_bits", "pyvc: base size times the product of the (constant) dimensions for 0-2 dimensions with symbolic counts and sizes; None as soon as a dimension is omitted or not constant or the base has no fixed size")
     run.function("compiler.front_end.constraints._check_allowed_in_bits", "pyvc: one error iff a byte-oriented atomic member sits in a bit-oriented definition (contracts/layout2.py)")
     run.function("compiler.front_end.constraints._check_that_inner_array_dimensions_are_constant / _check_that_array_base_types_are_fixed_size",
                  "pyvc: one error iff an inner dimension is omitted or not constant / iff an atomic element type has neither an explicit nor a fixed size (contracts/layout2.py)")
